@@ -25,12 +25,18 @@ type caseT struct {
 	// Alias: the request list reuses the file's own *Require values (first entry of each requested path,
 	// edited in place) instead of freshly allocated ones.
 	Alias bool `json:"request_reuses_file_entries,omitempty"`
+	// Then: a second request applied to the same File right after the first (either setter: "SR:<request>"
+	// or "SRSI:<request>"); the oracle then judges the file against this second request.
+	Then string `json:"then,omitempty"`
 }
 
 func (c caseT) key() string {
 	k := c.Setter + "|" + c.Request + "|" + c.Seed
 	if c.Alias {
 		k = "alias|" + k
+	}
+	if c.Then != "" {
+		k = "then " + c.Then + "|" + k
 	}
 	return k
 }
@@ -384,6 +390,27 @@ func runMod(c caseT) (msg string, out string) {
 			f.SetRequireSeparateIndirect(req)
 		}
 		f.Cleanup()
+		if c.Then != "" {
+			// comments are only promised for lines kept by both calls
+			first := map[string]bool{}
+			for _, rq := range req {
+				first[rq.Mod.Path] = true
+			}
+			for p := range mk {
+				if !first[p] {
+					delete(mk, p)
+				}
+			}
+			kind, spec, _ := strings.Cut(c.Then, ":")
+			req = parseReq(spec)
+			if kind == "SR" {
+				f.SetRequire(req)
+			} else {
+				f.SetRequireSeparateIndirect(req)
+			}
+			f.Cleanup()
+			oneFlat = false // the block-separation clause speaks about a freshly read file
+		}
 	}()
 	if msg != "" {
 		return msg, ""
@@ -716,6 +743,19 @@ func Run(r *fw.Run) {
 				_, out2 := runCase(c)
 				if msg == "" && out != out2 {
 					msg = fmt.Sprintf("two runs of the same call gave different files (map iteration order leaks):\n%s---\n%s", out, out2)
+				}
+				// a second bulk call on the same File (every fifth seed; thorough: every second): what the first
+				// call left behind must not confuse the second
+				if msg == "" && (i%5 == 0 || r.Thorough() && i%2 == 0) {
+					for _, then := range []string{"SR:a.com/x@v1.7.0,b.com/y@v1.7.0!,c.com/z@v1.7.0", "SRSI:a.com/x@v1.0.0!,b.com/y@v1.7.0,c.com/z@v1.0.0", "SR:c.com/z@v1.7.0!", "SRSI:"} {
+						ct := c
+						ct.Then = then
+						l.Execs++
+						if msgT, _ := runCase(ct); msgT != "" {
+							l.Outcomes[setter+":VIOLATION"]++
+							r.Violation(ct.key(), "second bulk call ("+then+") on the same File: "+msgT, ct)
+						}
+					}
 				}
 				// the same request built from the file's own entries edited in place (every third seed in the
 				// quick tier): the outcome must be the same file
